@@ -454,6 +454,7 @@ class Machine:
         self.max_configs = max_configs
         self.max_steps = max_steps
         self.max_depth = max_depth
+        self.max_len = (1 << 63) - 1   # L2 machines bound lengths (length arithmetic is assumed not to overflow usize)
         self.fid = 0
         self.visited_blocks = {}   # inst key -> set(bb)
         self.assert_sites = {}     # (inst key, bb) -> {'ok': n, 'open': n, info}
@@ -491,7 +492,7 @@ class Machine:
             to = ty.get('to') or {'s': '?', 'k': 'other'}
             tk = to.get('k')
             if tk in ('slice', 'str'):
-                ln = Int.sym(self.new_sym(st, name + '.len', 'usize', ((0, (1 << 63) - 1),)))
+                ln = Int.sym(self.new_sym(st, name + '.len', 'usize', ((0, self.max_len),)))
                 return Slice(None, name + '*', ln)
             key = ('arg', name)
             st.mem[key] = self.make_value(st, to, name + '*', depth + 1)
@@ -712,8 +713,12 @@ class Machine:
             if ty.startswith('&[u8'):
                 cfg.st.mem[key] = Arr([Int.const(x) for x in b])
                 return Ref(key, ())
-            if ty == '&&str' or ty == '&&[u8]':
-                pass
+            if ty.startswith('&') and int_info(ty[1:]):
+                bits, signed = int_info(ty[1:])
+                if len(b) == bits // 8:
+                    v = int.from_bytes(b, 'little', signed=signed)
+                    cfg.st.mem[key] = Int.const(v)
+                    return Ref(key, ())
             cfg.st.mem[key] = Atom('const:%s' % c.get('s'), None)
             return Ref(key, ())
         if c.get('zst'):
